@@ -70,7 +70,10 @@ def reset_globals():
     import vtlengine.ViralPropagation as VP
     from vtlengine.DataTypes.TimeHandling import TimePeriodConfig
     from vtlengine.Utils.__Virtual_Assets import VirtualCounter
-    X.dataset_output = None
+    if hasattr(X, "set_dataset_output"):           # a ContextVar since the per-thread dataset_output fix
+        X.set_dataset_output(None)
+    else:
+        X.dataset_output = None
     if hasattr(VP._current_registry, "set"):      # a ContextVar since the per-thread registry fix
         VP._current_registry.set(None)
     else:
@@ -219,7 +222,10 @@ def tags_of(events: List[dict], result: dict, kind: str = "run") -> List[str]:
     SemanticError / RunTimeError constructors (TRaise, at the end) and the write `dataset_output = None` in the `finally` of
     Interpreter.visit_Start (a TDsOutClear marked '!' = no pause: after the last event of the semantic pass)."""
     tr = [e["tag"] for e in events]
-    raised = not result.get("ok") and result.get("err", [None])[0] in ("Semantic", "Runtime")
+    # an error constructed before the call's first write to its output-dataset cell reads the value the THREAD's context holds
+    # (left by earlier calls of the same thread; visit_Start clears it in a finally): same-thread sequencing, not modelled
+    raised = (not result.get("ok") and result.get("err", [None])[0] in ("Semantic", "Runtime")
+              and any(t in ("TDsOutSet", "TDsOutClear") for t in tr))
     if kind in ("run", "semantic") and "TRegSet" in tr:
         if kind == "semantic" or (raised and "TTpSet" not in tr):
             tr = tr + (["TRaise"] if raised else []) + ["TDsOutClear!"]
@@ -286,7 +292,7 @@ def model_obs_batch(jobs: List[Tuple[List[List[str]], List[List[int]]]], tag: st
     """jobs: (traces of the calls, step-level schedules).  For each job: element 0 = each call's solo observations, then, per
     schedule, each thread's observations under it — chronological (global, value) pairs for the registry cell of the thread
     (reported as global 1; values are tokens = thread + 1, 0 = initial) and the two process-wide counters.  One Coq run for all."""
-    flt = "(fun l => rev (map (fun o => (if Nat.leb 100 (fst o) then GRegistry else fst o, snd o)) (filter (fun o => mem (fst o) [GVcDs; GVcDc] || Nat.leb 100 (fst o)) l)))"
+    flt = "(fun l => rev (map (fun o => (if Nat.leb 100 (fst o) then GRegistry else fst o, snd o)) (filter (fun o => mem (fst o) [GVcDs; GVcDc] || (Nat.leb 100 (fst o) && Nat.eqb (Nat.modulo (fst o) 10) GRegistry)) l)))"
     exprs, sizes = [], []
     for tagss, scheds in jobs:
         n = len(tagss)
@@ -320,7 +326,7 @@ def engine_obs(events: List[dict]) -> List[Tuple[int, int]]:
 def model_shapes(items: List[Tuple[str, List[str]]], tag: str) -> List[bool]:
     fn = {"run": "is_run_trace", "semantic": "is_semantic_trace", "prettify": "is_parse_trace", "create_ast": "is_parse_trace"}
     # the shape of the call's skeleton AND the hypothesis of C17_registry_serializable_impl (no registry read before the call's own set)
-    exprs = [f"{fn[k]} [{'; '.join(x.rstrip('!') for x in t)}] && reg_wf false [{'; '.join(x.rstrip('!') for x in t)}]" for k, t in items]
+    exprs = [f"{fn[k]} [{'; '.join(x.rstrip('!') for x in t)}] && cells_wf false false [{'; '.join(x.rstrip('!') for x in t)}]" for k, t in items]
     return common.coq_eval(HEADER, exprs, tag, shard=200)
 
 
@@ -696,7 +702,7 @@ def run(ctx):
         try:
             ok_shapes = model_shapes(shape_items, "c17shape")
             badshape = [f"{n} {k} {t}" for (k, t), n, okk in zip(shape_items, shape_names, ok_shapes) if not okk]
-            ctx.oblige("tie: every recorded global-access trace matches the model's skeleton of its API call (is_run_trace / is_semantic_trace / is_parse_trace) and reads the registry only after its own set (reg_wf)",
+            ctx.oblige("tie: every recorded global-access trace matches the model's skeleton of its API call (is_run_trace / is_semantic_trace / is_parse_trace) and reads its registry / output-dataset cell only after its own write (cells_wf)",
                        not badshape, "; ".join(badshape[:3]))
             ctx.cov["traces_checked_against_skeleton"] = len(shape_items)
             for n, (k, t) in list(zip(shape_names, shape_items))[:3]:
